@@ -52,6 +52,9 @@ def _specs():
     add("AQUA/IMU/q0", "ga", lambda F, g, a, m, P: F.AQUA(a, gyr=g, q0=q0_of(P), **P.get("aqua", {})).Q)
     add("ROLEQ/q0", "gam", lambda F, g, a, m, P: F.ROLEQ(g, a, m, q0=q0_of(P), **P.get("roleq", {})).Q)
     add("AngularRate/q0", "g", lambda F, g, a, m, P: F.AngularRate(g, q0=q0_of(P), **P.get("angular", {})).Q)
+    add("Fourati/q0", "gam", lambda F, g, a, m, P: F.Fourati(g, a, m, q0=q0_of(P), **P.get("fourati", {})).Q)
+    add("Complementary/MARG/q0", "gam", lambda F, g, a, m, P: F.Complementary(g, a, m, q0=q0_of(P), **P.get("complementary", {})).Q)
+    add("FKF/Pk", "gam", lambda F, g, a, m, P: F.FKF(g, a, m, Pk=np.identity(4) * 0.37, **P.get("fkf", {})).Q)
     add("Fourati", "gam", lambda F, g, a, m, P: F.Fourati(g, a, m, **P.get("fourati", {})).Q)
     for fr in ("NED", "ENU"):
         add("ROLEQ/" + fr, "gam", lambda F, g, a, m, P, fr=fr: F.ROLEQ(g, a, m, frame=fr, **P.get("roleq", {})).Q)
@@ -212,6 +215,14 @@ def make_history(rng, kind, n, psi=None):
     return g, a, m
 
 
+def respell(P, spell_dt):
+    if spell_dt:
+        for v in P.values():
+            if isinstance(v, dict) and "frequency" in v:
+                v["Dt"] = 1.0 / v.pop("frequency")
+    return P
+
+
 def make_params(rng, default):
     if default:
         return {}      # (the /q0 routes then use [0.7071, 0, 0.7071, 0], the value of the class docstrings)
@@ -224,7 +235,8 @@ def make_params(rng, default):
             if abs(np.linalg.norm(qr) - 1.0) < 8e-6:
                 q0 = qr
                 break
-    return {"q0": q0,
+    spell_dt = bool(rng.random() < 0.5)     # the sampling step spelled Dt= instead of frequency= (every class reads both)
+    return respell({"q0": q0,
         "madgwick": {"frequency": fr, "gain": gens.logu(rng, 1e-3, 10)}, "mahony": {"frequency": fr, "k_P": gens.logu(rng, 1e-2, 50), "k_I": gens.logu(rng, 1e-3, 5)},
         "ekf": {"frequency": fr, "noises": [gens.logu(rng, 1e-4, 1), gens.logu(rng, 1e-4, 1), gens.logu(rng, 1e-4, 1)]}, "ekf_marg": {"magnetic_ref": dip},
         "ukf": {"frequency": fr}, "aqua": {"frequency": fr, "alpha": gens.logu(rng, 1e-3, 1), "beta": gens.logu(rng, 1e-3, 1), "threshold": float(rng.uniform(0.5, 0.9999))},
@@ -234,7 +246,7 @@ def make_params(rng, default):
         "complementary": {"frequency": fr, "gain": float(rng.uniform(0.01, 0.99))}, "angular": {"frequency": fr}, "order": int(rng.integers(0, 7)),
         "fqa": {"mag_ref": np.array([np.cos(np.radians(dip)), 0.0, np.sin(np.radians(dip))])}, "dip": {"magnetic_dip": dip},
         "oleq": {"magnetic_ref": dip, "weights": np.array([gens.logu(rng, 0.1, 10), gens.logu(rng, 0.1, 10)])}, "triad": {},
-    }
+    }, spell_dt)
 
 
 def boundary_params(rng, P):
